@@ -211,7 +211,17 @@ def rNullSpelling (rows : List (List Val)) : Bool := anyVal (fun b => b == NULLs
 def rLineTerm (o : Opts) (rows : List (List Val)) : Bool := anyVal (fun b => b.contains (o.lt.headD 0)) rows
 def rEscape (o : Opts) (rows : List (List Val)) : Bool := anyVal (fun b => o.esc.any b.contains) rows
 def rEnclosure (o : Opts) (rows : List (List Val)) : Bool := anyVal (fun b => o.enc.any b.contains) rows
-def rFieldTerm (o : Opts) (rows : List (List Val)) : Bool := anyVal (fun b => b.contains (o.ft.headD 0)) rows
+/-- Is the value written between enclosure characters? -/
+def enclosed (o : Opts) : Val → Bool
+  | .null => false
+  | .text _ => !o.enc.isEmpty
+  | .num _ => !o.enc.isEmpty && !o.encOpt
+
+/-- Some value that is written *without* enclosure contains the field terminator's first byte
+(inside an enclosure the reader does not look for the field terminator). -/
+def rFieldTerm (o : Opts) (rows : List (List Val)) : Bool :=
+  rows.any (·.any fun v => !enclosed o v &&
+    match valBytes v with | none => false | some b => b.contains (o.ft.headD 0))
 
 /-- Name of the first defect region the case falls into (`none`: no special byte anywhere). -/
 def region (o : Opts) (rows : List (List Val)) : Option String :=
